@@ -37,6 +37,17 @@ def run(tier, seed):
     r.add_tlc('Persist.tla (DelayInBounds, UpperLimitDoubles, OnlyExitEndsIt)', res)
     if res.violated:
         raise pipeline.MachineryFailure('Persist.tla violates %s' % res.violated)
+    from .. import apalache
+    ind = apalache.inductive('PersistInd', broken={
+        'no_saturation': ("cap' = Min(MaxW - MinW, pow')", "cap' = pow'"),                 # delay may exceed max_wait
+        'no_reset': ("pow' = IF ready THEN 1 ELSE 2 * pow", "pow' = 2 * pow"),              # Ready does not reset the limit
+        'no_growth': ("pow' = IF ready THEN 1 ELSE 2 * pow", "pow' = IF ready THEN 1 ELSE pow")})
+    r.cov['apalache_inductive_invariant'] = ind
+    if ind == {'base': 'OK', 'step': 'OK', 'no_saturation': 'VIOLATED', 'no_reset': 'VIOLATED', 'no_growth': 'VIOLATED'}:
+        r.tlc_runs.append({"run": "apalache-mc PersistInd.tla: delay bounds / doubling / reset inductive for every min_wait <= max_wait, every draw and "
+                                  "any number of consecutive failures; three broken variants are not inductive", "result": ind})
+    else:
+        r.note('Apalache inductive-invariant run did not give the expected results: %s' % ind)
     if not q and len(beh) > 60000:
         import random
         beh = random.Random(seed).sample(beh, 60000)
